@@ -258,12 +258,14 @@ def check(repo, tier):
                     run.add(F(entry, 'D2', 'rank_transpose', f'{scen}: ' + '; '.join(bad[:3])))
     # ------------------------------------------------------------------ D3 tt2qtt / qtt2tt
     splits = [[[2]], [[2, 2]], [[2], [3]], [[2, 3], [1, 2]], [[3], [2, 2]]] if tier == 'quick' else [[[2]], [[3]], [[2, 2]], [[2], [3]], [[2, 3], [2]], [[3], [2, 2]], [[2, 2], [3, 2]], [[2], [2], [2]]]
-    splits = [(sp, None) for sp in splits] + [([[2], [3]], (1, 0)), ([[2], [2]], (1, 0)), ([[2, 2], [3]], (1, 1))]
+    splits = [(sp, None) for sp in splits] + [([[2], [3]], (1, 0, 'rc')), ([[2], [2]], (1, 0, 'rc')), ([[2, 2], [3]], (1, 1, 'rc'))]
+    # one factor with a trivial column (row) dimension only: a train that mixes operator-like and state-like factors
+    splits += [([[2]], (0, 1, 'c')), ([[2]], (0, 0, 'c')), ([[2]], (0, 1, 'r')), ([[3], [2]], (0, 1, 'c')), ([[2], [2]], (1, 0, 'r'))]
     for split, unit in splits:
         # split[i] = number of factors of site i for rows (list of factor counts); here: list of factor-count lists
         # unit = (site, position): that factor is 1 x 1 (a trivial factor in the middle of the chain, where the running rank is not 1)
         fac = [s[0] if len(s) == 1 else None for s in split]
-        scen = f'tt2qtt/qtt2tt(factors per site {[s for s in split]}{f", factor {unit[1]} of site {unit[0]} is 1 x 1" if unit else ""})'
+        scen = f'tt2qtt/qtt2tt(factors per site {[s for s in split]}' + (f', factor {unit[1]} of site {unit[0]} is ' + {'rc': '1 x 1', 'c': 'p x 1', 'r': '1 x q'}[unit[2]] if unit else '') + ')'
         entry = f'{TTM}.TT.tt2qtt'
 
         def body(sc):
@@ -271,8 +273,8 @@ def check(repo, tier):
             rows, cols, rdims, cdims = [], [], [], []
             for i, s in enumerate(split):
                 nf = s[0]
-                rf = [1 if unit == (i, j) else sc.atom(f'p{i}_{j}') for j in range(nf)]
-                cf = [1 if unit == (i, j) else sc.atom(f'q{i}_{j}') for j in range(nf)]
+                rf = [1 if unit and unit[:2] == (i, j) and 'r' in unit[2] else sc.atom(f'p{i}_{j}') for j in range(nf)]
+                cf = [1 if unit and unit[:2] == (i, j) and 'c' in unit[2] else sc.atom(f'q{i}_{j}') for j in range(nf)]
                 rows.append(rf); cols.append(cf)
                 rd, cd = 1, 1
                 for x in rf:
@@ -324,7 +326,9 @@ def check(repo, tier):
                 run.add(F(entry, 'D3', 'tt2qtt / qtt2tt index bookkeeping', f'{scen}: ' + '; '.join(bad[:3])))
     # ------------------------------------------------------------------ D4 diag / squeeze
     for d in (1, 2, 3):
-        for sel in [list(c) for r in range(1, d + 1) for c in itertools.combinations(range(d), r)]:
+        # (modes counted from the end are addressed like everywhere else in the class: diag([-1]) is the last mode)
+        for sel in [list(c) for r in range(1, d + 1) for c in itertools.combinations(range(d), r)] + ([[-1], [0, -1]] if d > 1 else []) + ([[-2]] if d > 2 else []):
+            want = {s_ % d for s_ in sel}
             scen = f'diag(order={d}, diag_list={sel})'
             entry = f'{TTM}.TT.diag'
 
@@ -343,7 +347,7 @@ def check(repo, tier):
                 a = sc.inputs[0]
                 bad = []
                 for k, c in enumerate(res._attrs['cores']):
-                    if k in sel:
+                    if k in want:
                         if not (sz_eq(c.shape[1], a._attrs['row_dims'][k]) and sz_eq(c.shape[2], a._attrs['row_dims'][k])):
                             bad.append(f'core {k} has mode dims {c.shape[1]} x {c.shape[2]}')
                         if c.dt != 'complex':
